@@ -124,7 +124,7 @@ def rule_estate(repo, res, families=("PVLParser", "PVLDecoder", "PVLEncoder"), f
             raise AnalysisError(f"anchor vanished: class {base}")
         for cname in repo.subclasses(base):
             for entry in ENTRY_POINTS[base]:
-                defcls, efn = repo.resolve_method(cname, entry)
+                defcls, efn = repo.full_resolved(cname, entry)
                 if efn is None:
                     if entry in ("parse", "encode"):
                         raise AnalysisError(f"anchor vanished: {cname}.{entry}")
@@ -454,7 +454,7 @@ def rule_e2(repo, res):
         if cname in omni_family:
             continue
         for h in hooks:
-            defcls, fn = repo.resolve_method(cname, h)
+            defcls, fn = repo.full_resolved(cname, h)
             if fn is None:
                 raise AnalysisError(f"anchor vanished: {cname}.{h}")
             ok = always_raises(fn)
@@ -464,7 +464,7 @@ def rule_e2(repo, res):
                                 f"for the strict parser {cname}, {h} resolves to {defcls}.{h}, which can return instead "
                                 "of raising: a strict dialect tolerates (or invents) a missing value",
                                 where=f"pvl/parser.py:{fn.lineno}"))
-        defcls, fn = repo.resolve_method(cname, "parse_assignment_statement")
+        defcls, fn = repo.full_resolved(cname, "parse_assignment_statement")
         handles = [n for n in ast.walk(fn) if isinstance(n, ast.ExceptHandler) and n.type is not None and "ParseError" in norm(n.type)]
         ok = not handles
         res.oblige("E2", f"{cname}.parse_assignment_statement ({defcls}) does not catch ParseError", ok=ok)
@@ -472,7 +472,7 @@ def rule_e2(repo, res):
             res.add(Finding("E2", f"{defcls}.parse_assignment_statement", "except ParseError",
                             f"the strict parser {cname} catches ParseError in parse_assignment_statement", where=f"pvl/parser.py:{fn.lineno}"))
     # the base assignment production raises ParseError when tokens run out after '='
-    fn = repo.method("PVLParser", "parse_assignment_statement")
+    fn = repo.full("PVLParser", "parse_assignment_statement")
     ok = False
     for n in ast.walk(fn):
         if isinstance(n, ast.Try) and any("parse_value" in norm(b) for b in n.body):
@@ -668,7 +668,7 @@ def rule_e5(repo, res):
     (OmniParser.parse_assignment_statement).  So only the designated site -- running out of tokens right after the
     '=' of an assignment -- may attach a token to a ParseError; every other ParseError raised below
     parse_assignment_statement (unterminated set/sequence, missing '=') must not carry one."""
-    omni = repo.method("OmniParser", "parse_assignment_statement")
+    omni = repo.full("OmniParser", "parse_assignment_statement")
     tolerant = any(isinstance(h, ast.ExceptHandler) and h.type is not None and "ParseError" in norm(h.type) for h in ast.walk(omni))
     res.oblige("E5", "OmniParser.parse_assignment_statement converts only ParseErrors that carry a token", ok=tolerant)
     sites = []
